@@ -237,7 +237,7 @@ fn fclass(x: f64) -> &'static str {
 }
 
 fn candle_streams(seed: u64) -> Vec<Vec<Candle>> {
-	vec![gen::candles(1, seed, 300, 10), gen::candles(2, seed ^ 1, 300, 10), gen::candles(3, seed ^ 2, 300, 10), gen::candles(4, seed ^ 3, 300, 10), gen::candles(7, seed ^ 4, 700, 10)]
+	vec![gen::candles(1, seed, 300, 10), gen::candles(2, seed ^ 1, 300, 10), gen::candles(3, seed ^ 2, 300, 10), gen::candles(4, seed ^ 3, 300, 10), gen::candles(7, seed ^ 4, 700, 10), gen::candles(8, seed ^ 5, 900, 10), gen::candles(9, seed ^ 6, 300, 10)]
 }
 
 /// build the config from a JSON object, validate, init, drive
